@@ -18,6 +18,39 @@ LEXEMES = ["CREATE", "TABLE", "INDEX", "UNIQUE", "t", "(", ")", ",", "a", "b INT
            "REFERENCES", "\x00", "\t", "--", "/*", ";"]
 
 
+EXPR_STATEMENTS = [
+    "CREATE INDEX i1 ON t (coalesce(a, NULL))", "CREATE INDEX i2 ON t (a + NULL)", "CREATE INDEX i3 ON t ((NULL))",
+    "CREATE INDEX i4 ON t (a * 2 + b)", "CREATE INDEX i5 ON t (lower(b), a DESC)", "CREATE INDEX i6 ON t (a) WHERE b IS NOT NULL",
+    "CREATE INDEX i7 ON t (abs(a - 1.5))", "CREATE INDEX i8 ON t (a || 'x')", "CREATE UNIQUE INDEX i9 ON t (substr(b, 1, 2) COLLATE nocase)",
+    "CREATE INDEX i10 ON t (a) WHERE a > 0 AND b < 'm' OR c == 3", "CREATE INDEX i11 ON t (-a, +b, ~c)", "CREATE INDEX i12 ON t (a) WHERE c IN (1, 2, NULL)",
+    "CREATE INDEX i13 ON t (ifnull(a, b) DESC, c COLLATE rtrim ASC) WHERE a NOT NULL", "CREATE INDEX i14 ON t (a) WHERE b LIKE 'x%' ESCAPE '\\'",
+    "CREATE INDEX i15 ON t (CASE WHEN a THEN b ELSE NULL END)", "CREATE INDEX i16 ON t (a) WHERE b BETWEEN 1 AND 2", "CREATE INDEX i17 ON t (CAST(a AS TEXT))",
+    "CREATE INDEX i18 ON t (a << 2, b >> 1, c % 3, a / 2, b & 1, c | 4)", "CREATE INDEX i19 ON t (length(b) = NULL)", "CREATE INDEX i20 ON t (nullif(a, 0), NULL IS a)",
+    "CREATE TABLE e1 (a DEFAULT (1 + 1), b CHECK (b > 0 AND b < 10), c REFERENCES t(a) ON DELETE SET NULL ON UPDATE CASCADE)",
+    "CREATE TABLE e2 (a, b, c, FOREIGN KEY (a, b) REFERENCES t(a, b) ON UPDATE NO ACTION DEFERRABLE INITIALLY DEFERRED, CHECK (a <> b))",
+    "CREATE TABLE e3 (a INTEGER PRIMARY KEY ON CONFLICT ROLLBACK, b UNIQUE ON CONFLICT IGNORE, c NOT NULL ON CONFLICT FAIL DEFAULT (NULL))",
+    "CREATE TABLE e4 (a DEFAULT NULL, b DEFAULT (coalesce(NULL, 1)), c GENERATED ALWAYS AS (a + NULL))",
+    "CREATE TABLE e5 (a CHECK (a IS NULL OR a > 0), b DEFAULT CURRENT_TIMESTAMP, c DEFAULT TRUE, d DEFAULT x'00')",
+    "CREATE TABLE e6 (a, b, UNIQUE (a COLLATE nocase DESC, b) ON CONFLICT REPLACE, PRIMARY KEY (b ASC, a)) WITHOUT ROWID",
+    "CREATE TEMP TABLE e7 (a)", "CREATE TABLE IF NOT EXISTS e8 (a)", "CREATE TABLE main.e9 (a)", "CREATE TABLE e10 AS SELECT 1 AS a",
+    "CREATE VIRTUAL TABLE e11 USING fts5(a)", "CREATE INDEX IF NOT EXISTS i21 ON t (a)", "CREATE TRIGGER tr AFTER INSERT ON t BEGIN SELECT NULL; END",
+    "CREATE VIEW v1 AS SELECT a, NULL FROM t", "SELECT a, b FROM t", "SELECT * FROM t", "SELECT a, *, rowid FROM t", "select NULL from t",
+]
+
+
+def sqlite_accepts(sql):
+    import sqlite3
+    con = sqlite3.connect(":memory:")
+    con.execute("CREATE TABLE t (a, b, c)")
+    try:
+        con.execute(sql)
+        return True
+    except sqlite3.Error:
+        return False
+    finally:
+        con.close()
+
+
 def inputs(tier, rnd, stored):
     out = []
     seen = set()
@@ -33,7 +66,9 @@ def inputs(tier, rnd, stored):
     for _ in range(k3):
         n = rnd.choice([3, 4, 4, 5, 7])
         add(rnd.choice([" ", "", " "]).join(rnd.choice(LEXEMES) for _ in range(n)))
-    base = stored[: (40 if tier == "quick" else 400)]
+    # statements with expressions (index expressions, partial indexes, CHECK / DEFAULT expressions) that real SQLite accepts
+    exprs = [s for s in EXPR_STATEMENTS if sqlite_accepts(s)]
+    base = exprs + stored[: (40 if tier == "quick" else 400)]
     for s in base:
         for cut in range(0, len(s) + 1, 1 if tier == "thorough" or len(s) < 80 else 3):
             add(s[:cut])
